@@ -86,6 +86,57 @@ Proof.
   apply nonstop_no_comma. eapply (body_all_nonstop o); [destruct o; cbn in Ha; try discriminate; contradiction|exact B1].
 Qed.
 
+
+(* prefix matches: "==V.*" / "!=V.*" with V = v? (N!)? N(.N)*  *)
+Lemma gnf_rels_wild rs : forallb wf_digits rs = true -> gnf_rels rs [46; 42] = true.
+Proof.
+  induction rs as [|d rs IH]; [reflexivity|]. cbn [forallb gnf_rels]. intros H. apply andb_prop in H as [Hd Hrs].
+  rewrite Hd, (IH Hrs). cbn [andb]. destruct rs as [|d' rs']; reflexivity.
+Qed.
+Theorem wildcard_clause_valid o ws v e r0 rs : o = OEq \/ o = ONe -> forallb is_ws ws = true ->
+  (match v with Some c => lc c = 118 | None => True end) -> (match e with Some x => wf_digits x = true | None => True end) ->
+  wf_digits r0 = true -> forallb wf_digits rs = true ->
+  rq_wf_clause {| c_op := o; c_ws := ws; c_body := BWild v e r0 rs |}.
+Proof.
+  intros Ho Hw Hv He Hr0 Hrs.
+  set (q := {| q_v := v; q_ep := e; q_rel0 := r0; q_rels := rs; q_pre := None; q_post := None; q_dev := None |}).
+  assert (Hr0' := Hr0). unfold wf_digits in Hr0'. apply andb_prop in Hr0' as [Hn0 Hd0].
+  assert (Hh0 : hd_is is_digit r0 = true) by now apply wf_digits_hd.
+  assert (P : p_pub (r_osep v ++ r_opt r_ep e ++ r0 ++ r_rels rs ++ [46; 42]) = Some (q, [46; 42])).
+  { unfold p_pub.
+    assert (Pv : p_v (r_osep v ++ r_opt r_ep e ++ r0 ++ r_rels rs ++ [46; 42]) = (v, r_opt r_ep e ++ r0 ++ r_rels rs ++ [46; 42])).
+    { destruct v as [c|]; cbn [r_osep app p_v].
+      - apply N.eqb_eq in Hv. now rewrite Hv.
+      - assert (Hd : hd_is is_digit (r_opt r_ep e ++ r0 ++ r_rels rs ++ [46; 42]) = true).
+        { destruct e as [x|]; cbn [r_opt app].
+          - unfold r_ep. rewrite <- app_assoc. rewrite hd_is_app; [now apply wf_digits_hd|]. unfold wf_digits in He. now apply andb_prop in He.
+          - rewrite hd_is_app; auto. }
+        destruct (r_opt r_ep e ++ r0 ++ r_rels rs ++ [46; 42]) as [|c t]; [reflexivity|]. cbn in Hd. cbn [p_v].
+        destruct (lc c =? 118) eqn:E; auto. apply N.eqb_eq in E. exfalso.
+        unfold is_digit in Hd. apply andb_prop in Hd as [H1 H2]. apply N.leb_le in H1, H2. unfold lc in E.
+        destruct ((65 <=? c) && (c <=? 90)) eqn:U; [apply andb_prop in U as [U1 U2]; apply N.leb_le in U1, U2; lia|lia]. }
+    rewrite Pv. destruct e as [x|]; cbn [r_opt].
+    - (* with an epoch: digits "!" then the release *)
+      unfold r_ep. rewrite <- !app_assoc. cbn [app].
+      assert (Hx := He). unfold wf_digits in Hx. apply andb_prop in Hx as [Hnx Hdx].
+      rewrite span_complete; auto. rewrite Hnx. cbn [negb hd_is]. replace (33 =? 33) with true by reflexivity. cbn [tl].
+      rewrite span_complete; auto. 2:{ destruct rs; reflexivity. }
+      rewrite Hn0. cbn [negb].
+      rewrite p_rels_complete by (try apply r_rels_len; now apply gnf_rels_wild). reflexivity.
+    - cbn [app]. rewrite span_complete; auto. 2:{ destruct rs; reflexivity. }
+      rewrite Hn0. cbn [negb].
+      replace (hd_is (N.eqb 33) (r_rels rs ++ [46; 42])) with false by (destruct rs; reflexivity).
+      rewrite Hn0. cbn [negb].
+      rewrite p_rels_complete by (try apply r_rels_len; now apply gnf_rels_wild). reflexivity. }
+  unfold rq_wf_clause. cbn [c_op c_ws c_body r_body].
+  assert (B : p_body o (r_osep v ++ r_opt r_ep e ++ r0 ++ r_rels rs ++ [46; 42]) = Some (BWild v e r0 rs, [])).
+  { destruct Ho as [-> | ->]; cbn [p_body]; rewrite P; reflexivity. }
+  repeat split; auto.
+  - intros E. rewrite E in P. discriminate.
+  - apply nonstop_no_comma. eapply (body_all_nonstop o); [destruct Ho; subst; discriminate|exact B].
+Qed.
+Print Assumptions wildcard_clause_valid.
+
 (* "===": any non-empty text of characters other than whitespace, ";", ")" - and, for a requirement, "," *)
 Theorem arbitrary_clause_valid ws t : forallb is_ws ws = true -> t <> [] -> forallb arb_char t = true -> rq_no_comma t = true ->
   rq_wf_clause {| c_op := OArb; c_ws := ws; c_body := BArb t |}.
